@@ -86,6 +86,8 @@ class World:
         self.counter = 0
         self.stale_out = set()  # shmids whose dataset was purged while its page-out job was still pending
         self.stale_completed = False
+        self.evicted_unwritten = set()  # keys whose page-out completed while their writer had not finished (stale writer)
+        self.failed_out_with_reader = set()  # keys whose page-out FAILED while a reader was still registered
         self.leak = 0  # bytes reserved by page-ins that failed before creating their segment (known finding, see below)
 
     # ---- ground truth -------------------------------------------------------------------------------------
@@ -108,7 +110,8 @@ def check_invariants(w: World, trace, failures, after):
     m = w.m
     res = w.resident()
     if res > w.capacity:
-        failures.append(("C08", "C08/resident-within-capacity", f"after {after}: {res} bytes resident in shared memory > capacity {w.capacity}", "other"))
+        failures.append(("C08", "C08/resident-within-capacity", f"after {after}: {res} bytes resident in shared memory > capacity {w.capacity}",
+                         "stale-pageout-after-purge" if w.stale_completed else "other"))
     if m.free_space != w.capacity - res:
         # a failed page-in never returns its reservation (Manager.page_in's callback calls purge, whose unlink of the segment
         # that was never created raises and is swallowed): classified separately so that any OTHER discrepancy is still reported
@@ -139,7 +142,10 @@ def step(w: World, op, failures):
             if key in w.granted:
                 failures.append(("C08", "C08/no-double-grant", f"add({key}) granted although the key already exists", "other"))
             if size > w.capacity - res_before:
-                failures.append(("C08", "C08/never-granted-early", f"add({key},{size}) granted with only {w.capacity - res_before} bytes free", "other"))
+                # (after a stale page-out job has credited a purged dataset's size a second time - known finding - free_space is too
+                #  large, so a later grant comes early: same witness class)
+                failures.append(("C08", "C08/never-granted-early", f"add({key},{size}) granted with only {w.capacity - res_before} bytes free",
+                                 "stale-pageout-after-purge" if w.stale_completed else "other"))
             w.granted[key] = (shmid, size)
             FakeSharedMemory(shmid, create=True, size=size)  # the client allocates the segment it was granted
             w.counter += 1
@@ -170,7 +176,10 @@ def step(w: World, op, failures):
         shmid, size, rdid, des, err = m.get(key)
         if err == "":
             if key not in w.written:
-                failures.append(("C09", "C09/not-readable-before-written", f"get({key}) succeeded before the writer finished", "other"))
+                # known finding: a dataset whose writer stalled past the staleness window is paged out like any other; a later get()
+                # pages it back in and hands it out although the writer never finished
+                failures.append(("C09", "C09/not-readable-before-written", f"get({key}) succeeded before the writer finished",
+                                 "unwritten-dataset-evicted-then-read" if key in w.evicted_unwritten else "other"))
             elif shmid not in w.segs.t or bytes(w.segs.t[shmid][:size]) != w.written[key]:
                 failures.append(("C09", "C09/bytes-read-equal-bytes-written", f"get({key}) returned bytes that differ from what was written (or a missing segment)",
                                  "stale-pageout-after-purge" if w.stale_completed else "other"))
@@ -218,6 +227,11 @@ def step(w: World, op, failures):
             return None
         k, shmid, size, cb = w.pending.pop(idx)
         if k == "out":
+            key_of = next((kk for kk, g in w.granted.items() if g[0] == shmid), None)
+            if key_of is not None and ok is True and key_of not in w.written:
+                w.evicted_unwritten.add(key_of)
+            if key_of is not None and ok is not True and w.readers.get(key_of):
+                w.failed_out_with_reader.add(key_of)
             if shmid in w.stale_out:
                 w.stale_out.discard(shmid)
                 w.stale_completed = True  # known finding: the job's callback acts on a dataset that was purged (and maybe re-added)
@@ -333,7 +347,7 @@ def _stuck(w, failures):
     if stuck:
         # known finding: a FAILED page-out of a dataset that still has a (stale) reader registered - the callback's purge is deferred
         # because of the reader, and the reader's close is rejected because the status is no longer in_memory
-        cls = "failed-pageout-with-stale-reader" if all(w.readers.get(k) for k in stuck) else "other"
+        cls = "failed-pageout-with-stale-reader" if all(w.readers.get(k) or k in w.failed_out_with_reader for k in stuck) else "other"
         failures.append(("C09", "C09/evictable-request-eventually-granted", f"datasets {stuck} are left in 'paging_out' with no page-out job pending: their memory can never be reclaimed", cls))
 
 
@@ -481,3 +495,39 @@ def _record(trace, fails, prop, failures_all, seen, distinct, cap):
             continue
         seen.add((ob, cls))
         failures_all.append({"obligation": ob, "kind": "enumerated", "inputs": {"capacity": cap, "operations": trace}, "observed": what, "class": cls, "clause": ob})
+
+
+def replay_case(doc):
+    """re-run one recorded operation sequence on the current tree (real Manager + real Disk page code over the fake segment table);
+    returns the list of (property, obligation, observed) it violates"""
+    inp = doc["inputs"]
+    w = World(inp["capacity"], inp.get("available", 1 << 40))
+    failures, trace = [], []
+    try:
+        for d in inp["operations"]:
+            kind = d[0]
+            if kind == "add":
+                op = ("add", d[1], d[2])
+            elif kind in ("fin_write", "get", "fin_read", "purge"):
+                op = (kind, d[1])
+            elif kind == "tick":
+                op = ("tick",)
+            elif kind == "complete":
+                idx = next((i for i, p in enumerate(w.pending) if p[0] == d[1] and p[1].endswith(d[2])), None)
+                if idx is None:
+                    trace.append(["<not enabled on this tree>", d])
+                    continue
+                op = ("complete", idx, d[3])
+            else:
+                continue
+            try:
+                r = step(w, op, failures)
+            except Exception as e:  # noqa
+                failures.append(("C08", "C08/manager-operation-raised", f"{op}: {type(e).__name__}: {e}", "other"))
+                break
+            trace.append(r)
+            check_invariants(w, trace, failures, r)
+        _stuck(w, failures)
+    finally:
+        w.close()
+    return [(f[0], f[1], f[2]) for f in failures]
